@@ -30,8 +30,7 @@ def run(prog: Program, rep: Report, tier: str) -> None:
         f = prog.func(mod, fn)
         S = eng.summaries[f]
         for p in f.param_names():
-            roots = {f"P:{p}", f"P:{p}.*"}
-            effs = sorted([e for e in S.writes if e.root in roots], key=lambda e: (e.where, e.loc))
+            effs = sorted([e for e in S.writes if e.root == f"P:{p}" or e.root.startswith(f"P:{p}.")], key=lambda e: (e.where, e.loc))
             if (fn, p) in DOCUMENTED:
                 rep.ob('C18-D1 query-purity', f.fq(), f"{fn}({p}) [documented output argument]", f.loc(), True, DOCUMENTED[(fn, p)] + f"; {len(effs)} write(s) recorded", nontrivial=False)
                 continue
@@ -64,7 +63,10 @@ def run(prog: Program, rep: Report, tier: str) -> None:
             rep.error(f"C18-D3: {cls}.clone not found"); continue
         r = eng.summaries[m].ret
         selfn = m.positional_params()[0]
-        bad = sorted(x for x in r.all() if x.startswith(f"P:{selfn}"))
+        storage = r.field('_dict') if cls == 'MultiTensor' else r.field('physical')
+        if storage is None:
+            rep.error(f"C18-D3: cannot identify the storage attribute of the value returned by {cls}.clone"); continue
+        bad = sorted(x for x in (storage.id | storage.reach()) if x.startswith(f"P:{selfn}"))
         rep.ob('C18-D3 clone-independence', m.fq(), f"{cls}.clone() result shares nothing mutable with self", m.loc(), not bad,
                'result is built from fresh storage' if not bad else f"the result may be or contain {bad}: an in-place operation on the clone changes the source")
     # D4 globals
